@@ -194,7 +194,10 @@ Record code := {
   (* effect scan of every function on the listing / dry-run call path (runner, generator constructors, loaders, namespace
      tree, generate_all prologues, ...): no file-system effect and no call of an effectful sink (_generate_code,
      _handle_overwrite, _copy_header_using_line_pps, post-processor __call__) outside an `if not is_dryrun:` block *)
-  k_path_pure : bool
+  k_path_pure : bool;
+  (* build_namespace_tree ends with _NamespaceFactory.check_namespace_files_are_not_type_files(): a namespace file whose path
+     is also the path of a type's file raises ValueError before anything is listed or written *)
+  k_ns_check : bool
 }.
 
 (* ------------------------------------------------------------------------------------------ *)
@@ -376,7 +379,7 @@ Definition item_template_ok (c : cfg) (g : genid) (it : item) : bool :=
   end.
 
 (* ---- running one generator ---------------------------------------------------------------- *)
-Inductive result := Ok | Rejected | NoTemplate | Exists | IoError.
+Inductive result := Ok | Rejected | NoTemplate | Exists | IoError | NsClash.
 Definition is_ok (r : result) : bool := match r with Ok => true | _ => false end.
 
 Definition leaf_guard (k : code) (g : genid) (it : item) : bool :=
@@ -462,8 +465,15 @@ Definition trace_of (k : code) (c : cfg) : list eact :=
    the output directory appears in every mode *)
 Definition path_effect (k : code) (c : cfg) (f : fs) : fs := if k_path_pure k then f else fs_mkdirs f (c_outdir c).
 
+(* the output path of some namespace (generated or not: every namespace of the tree) is the output path of a type *)
+Definition ns_clash (k : code) (c : cfg) (i : inputs) : bool :=
+  k_ns_check k &&
+  let ts := types_read k c i in
+  existsb (fun ns => existsb (fun t => path_eqb (ns_out c ns) (type_out c t)) ts) (namespaces ts).
+
 Definition run (k : code) (c : cfg) (i : inputs) (f : fs) : state :=
   if beval (c_flags c) false false false (k_reject k) then (f, [], Rejected)
+  else if ns_clash k c i then (f, [], NsClash)
   else fold_left (step k c i) (trace_of k c) (path_effect k c f, [], Ok).
 
 (* ---- the mode variants of a configuration ------------------------------------------------- *)
@@ -647,7 +657,7 @@ Fixpoint show_path (p : path) : str :=
   | x :: r => x ++ sep_slash :: show_path r
   end.
 Definition show_paths (l : list path) : str := flat_map (fun p => show_path p ++ [sep_semi]) l.
-Definition result_code (r : result) : N := match r with Ok => 0 | Rejected => 2 | NoTemplate => 1 | Exists => 3 | IoError => 4 end.
+Definition result_code (r : result) : N := match r with Ok => 0 | Rejected => 2 | NoTemplate => 1 | Exists => 3 | IoError => 4 | NsClash => 5 end.
 
 (* one line-oriented report per case: results, listings, created files, influence set, triggers *)
 Definition cand_paths (k : code) (c : cfg) (i : inputs) : list path :=
